@@ -28,9 +28,10 @@ CLAIMED = {
             "Coq proof (R) + differential correspondence with exact rational QP oracle"),
     "C04": ("proof",
             "PARTIAL. Proved in Coq for all matrices: at a minimiser (M w)_i >= 0, hence for DualProj and UPGrad "
-            "(J.A(J))_i >= -reg_eps s^2 w_i for every row (props/C04.v). NOT yet proved (checked by the direct "
-            "oracle only, and said so in the evidence): MGDA's allowance s*sqrt(|A|^2-minnorm^2), the Frank-Wolfe "
-            "rate 8 s^2/(K+2), CAGrad's c>=1 clause. Direct oracle: the stated allowance on random matrices of "
+            "(J.A(J))_i >= -reg_eps s^2 w_i for every row (props/C04.v). Also proved (C04_mgda_allowance): for every budget and epsilon, "
+            "(J.A(J))_i >= -s*sqrt(|A(J)|^2-|x*|^2) with x* a min-norm point of the hull (variational inequality + "
+            "Cauchy-Schwarz), and x* itself opposes no objective. NOT proved (oracle only): the Frank-Wolfe "
+            "rate 8 s^2/(K+2), CAGrad's c>=1 clause, existence of x* (a hypothesis). Direct oracle: the stated allowance on random matrices of "
             "all categories and exhaustively on all {-1,0,1} matrices (2x2,2x3,3x2 quick; up to 3x3 thorough), "
             "at scale 1 and at sigma_max just above norm_eps, all MGDA budgets 0..1000.",
             "DESIGN.md §8 C04, §13",
@@ -49,8 +50,8 @@ CLAIMED["C18"] = ("proof",
     "is the positive- or the negative-entries sum plus leaked share according to the draw. Correspondence without "
     "RNG replication: the implementation's PCGrad output under 12/40 seeds must lie in the Minkowski sum of the "
     "model's per-row candidate sets over ALL (m-1)! orders (m<=4), GradDrop per coordinate in the model's two "
-    "candidates (also for non-identity purity functions f). NOT proved (oracle only): MGDA never longer than the "
-    "mean row, exact min-norm point for two rows.",
+    "candidates (also for non-identity purity functions f). Also proved: every Frank-Wolfe step does not increase a^T G a, hence MGDA is never longer than the "
+    "mean row. NOT proved (oracle only): exact min-norm point for two rows after one step.",
     "DESIGN.md §8 C18",
     "Trusted: Coq kernel + stdlib real axioms; Agg.v model; CLARABEL answer as an oracle (harness' own cvxpy solve); "
     "torch RNG not modelled (candidate sets).",
@@ -62,9 +63,9 @@ CLAIMED["C16"] = ("proof",
     "indices, each selected score <= each unselected score, weights 1/k on them and 0 elsewhere; too few rows are "
     "rejected. Fault enumeration: honest matrices (m<=7) with up to b / f rows replaced by +-2^20..2^40 x scale, "
     "garbage, copies, all admissible b,(f,k), f32/f64; Krum's selection checked for VALIDITY against float64 "
-    "scores (ties are structural when m-f-2 <= 1), also with 26-32 rows sharing a large common offset. NOT proved: "
-    "that the code's 'drop the first of the m-f-1 smallest distances' equals 'the m-f-2 nearest OTHER rows' "
-    "(checked by the oracle).",
+    "scores (ties are structural when m-f-2 <= 1), also with 26-32 rows sharing a large common offset. Also proved "
+    "(C16_krum_neighbourhood): the code's 'drop the first of the m-f-1 smallest distances' IS 'the m-f-2 nearest "
+    "OTHER rows' (the dropped entry is the zero distance of the row to itself).",
     "DESIGN.md §8 C16",
     "Trusted: Coq kernel + stdlib real axioms; Agg.v model; torch.sort/topk/cdist (compared).",
     "Coq proof + fault enumeration")
@@ -83,25 +84,29 @@ CLAIMED["C08"] = ("proof",
     "Coq proof (meta-theorem + instances) + differential oracle")
 CLAIMED["C09"] = ("proof",
     "PARTIAL. Proved in Coq (props/C09.v), all sizes: for every FIXED weight vector (Mean, Sum, Constant, Random "
-    "under a fixed draw) c -> A(diag(c) J) is linear in c (all c, not only positive). NOT proved, checked by the "
-    "direct oracle only: PCGrad (fixed seed) and ConFIG linearity on positive c; UPGrad's defect bound "
+    "under a fixed draw) c -> A(diag(c) J) is linear in c (all c, not only positive). Also proved: PCGrad, for EVERY "
+    "fixed schedule, is linear in positive c (conflict tests scale-invariant, projections independent of the scale "
+    "of the row projected on); ConFIG's unit rows are scale free and its output is linear in c given the same "
+    "pseudo-inverse oracle. NOT proved, checked by the direct oracle only: UPGrad's defect bound "
     "K sqrt(reg_eps) s|w| on the ladder 1e-2..1e-12 and vanishing at 1e-16 (K = 10x the maximum measured on the "
     "unchanged tree). Oracle: three related scalings c1, c2, a c1 + b c2 with entries 2^-10..2^10, f32/f64.",
     "DESIGN.md §8 C09, §13",
     "Trusted: Coq kernel + stdlib real axioms; Agg.v; torch RNG under manual_seed draws independently of the "
     "matrix entries; the constant K is empirical.",
-    "Coq proof (fixed-weight family) + differential oracle")
+    "Coq proof (fixed-weight family, PCGrad, ConFIG) + differential oracle")
 CLAIMED["C10"] = ("proof",
     "PARTIAL. Proved in Coq (props/C10.v), all sizes: permuting rows together with their weights leaves the "
     "combination unchanged (meta-theorem; covers Constant / preference vectors permuted alongside and any "
-    "equivariant weighting); Mean, Sum and TrimmedMean are invariant under any row permutation. NOT proved "
-    "(oracle + correspondence only): equivariance of the QP, Frank-Wolfe, Krum, pinv/eigh/conic-solver based "
-    "weightings. Oracle: ALL m! row permutations (m<=4 quick, <=5 thorough) for 13 aggregators with "
+    "equivariant weighting); Mean, Sum and TrimmedMean are invariant under any row permutation. Also proved "
+    "(EquivarianceProofs.v): gram(J[p]) = G[p,p]; the constrained QP minimiser is equivariant and unique on both "
+    "norm_eps branches, hence DualProj and UPGrad are invariant whenever the QP oracle answers are minimisers; "
+    "Krum under pairwise distinct scores; IMTL-G for the permuted Penrose inverse. NOT proved (oracle + "
+    "correspondence only): Frank-Wolfe (MGDA), eigh- and conic-solver-based weightings (Aligned-MTL, CAGrad), ConFIG. Oracle: ALL m! row permutations (m<=4 quick, <=5 thorough) for 13 aggregators with "
     "pref/weight/leak vectors permuted alongside, GradDrop under a fixed seed, f32/f64, on tie-free inputs "
     "(exact MGDA argmin ties, Krum score ties, IMTL-G/CAGrad/ConFIG points of discontinuity are skipped and counted).",
     "DESIGN.md §8 C10, §13",
     "Trusted: Coq kernel + stdlib real axioms; Agg.v; tie/conditioning filters of the harness.",
-    "Coq proof (meta + 3 instances) + exhaustive-permutation oracle")
+    "Coq proof (meta + 7 instances) + exhaustive-permutation oracle")
 CLAIMED["C11"] = ("proof",
     "PARTIAL. Proved in Coq (props/C11.v): the 2-d/finiteness check is Ok iff 2-d and finite, else ValueError; "
     "row-count contradictions of Constant/pref vectors, GradDrop's leak, TrimmedMean, Krum yield ValueError; every "
